@@ -90,6 +90,10 @@ type feffect struct {
 	capture int
 	// capture2 > 0: likewise, the (capture2-1)-th argument (signed or unsigned) into `arg2`
 	capture2 int
+	// cont: the function goes on after the call although no field is declared overwritten
+	cont bool
+	// result: the call's value is used (`b := x.MantExp(z)`); it is this declared parameter
+	result string
 	// capAll: every argument of the call (bool as 0/1, unsigned through Int.ofNat) into `args : List Int`
 	capAll bool
 	seen   bool
@@ -110,17 +114,17 @@ type fact struct {
 	alias, aliasOf string
 	scratch        []string
 	mops           []*fmop
-	lean      string
-	fn        string // key in pkgInfo.funcs
-	doc       string
-	params    []*fparam
-	stateful  bool
-	stop      bool // stateful: return the state at the first opaque call (ignore what follows it)
-	effects   []*feffect
-	skip      []string // statements dropped (mantissa traffic); each must occur
-	skipSeen  map[string]bool
-	locate    func(ft *ftr, fd *ast.FuncDecl) ([]ast.Stmt, ast.Expr, error)
-	resultVar string // fragment facts: the local returned when the fragment falls through
+	lean           string
+	fn             string // key in pkgInfo.funcs
+	doc            string
+	params         []*fparam
+	stateful       bool
+	stop           bool // stateful: return the state at the first opaque call (ignore what follows it)
+	effects        []*feffect
+	skip           []string // statements dropped (mantissa traffic); each must occur
+	skipSeen       map[string]bool
+	locate         func(ft *ftr, fd *ast.FuncDecl) ([]ast.Stmt, ast.Expr, error)
+	resultVar      string // fragment facts: the local returned when the fragment falls through
 }
 
 type ftr struct {
@@ -445,6 +449,11 @@ func (t *ftr) ex(e ast.Expr, c fctx) string {
 				return wrapInt(ty.bits, a+" - "+b)
 			case token.MUL:
 				return wrapInt(ty.bits, a+" * "+b)
+			case token.QUO:
+				// Go: truncated toward zero (MinInt / -1 wraps)
+				return wrapInt(ty.bits, "Int.tdiv "+a+" "+b)
+			case token.REM:
+				return "(Int.tmod " + a + " " + b + ")"
 			}
 			return t.fail(e, "signed operator %s", x.Op)
 		}
@@ -836,6 +845,39 @@ func (t *ftr) stmts(list []ast.Stmt, c fctx, k func(c fctx) string) string {
 				return out + next(c)
 			}
 		}
+		if len(x.Lhs) == 2 && len(x.Rhs) == 2 && (x.Tok == token.DEFINE || x.Tok == token.ASSIGN) {
+			// parallel assignment of scalars: both right-hand sides are evaluated first
+			r0, r1 := t.ex(x.Rhs[0], c), t.ex(x.Rhs[1], c)
+			o0, c1 := t.assign(x.Lhs[0], func(ftype) string { return r0 }, x.Tok == token.DEFINE, c)
+			o1, c2 := t.assign(x.Lhs[1], func(ftype) string { return r1 }, x.Tok == token.DEFINE, c1)
+			// the first `let` must not shadow a name the second right-hand side reads
+			if f := strings.Fields(strings.TrimSpace(o0)); len(f) > 1 && containsWord(r1, f[1]) {
+				return c.indent + t.fail(x, "parallel assignment whose second value reads the first target") + "\n"
+			}
+			return o0 + o1 + next(c2)
+		}
+		if len(x.Lhs) == 1 && len(x.Rhs) == 1 && t.f.stateful {
+			if ce, ok := unparen(x.Rhs[0]).(*ast.CallExpr); ok {
+				if ef := t.effect(ce); ef != nil && ef.result != "" {
+					out, c2, done := t.applyEffect(ef, ce, x, c)
+					if done {
+						return out
+					}
+					rp := t.param(ef.result)
+					if rp == nil {
+						return c.indent + t.fail(x, "effect result %s is not a declared parameter", ef.result) + "\n"
+					}
+					rp.used = true
+					o, c3 := t.assign(x.Lhs[0], func(ty ftype) string {
+						if !rp.typed {
+							rp.typ, rp.typed = ty, true
+						}
+						return rp.name
+					}, x.Tok == token.DEFINE, c2)
+					return out + o + next(c3)
+				}
+			}
+		}
 		if len(x.Lhs) != 1 || len(x.Rhs) != 1 {
 			return c.indent + t.fail(x, "multiple assignment") + "\n"
 		}
@@ -1014,15 +1056,33 @@ func (t *ftr) stmts(list []ast.Stmt, c fctx, k func(c fctx) string) string {
 		}
 		if ce, ok := x.X.(*ast.CallExpr); ok && t.f.stateful {
 			if ef := t.effect(ce); ef != nil {
+				out, c2, done := t.applyEffect(ef, ce, x, c)
+				if done {
+					return out
+				}
+				return out + next(c2)
+			}
+		}
+		return c.indent + t.fail(x, "statement %s", stmtString(t.p, x)) + "\n"
+	}
+	return c.indent + t.fail(s, "statement %T", s) + "\n"
+}
+
+// applyEffect renders an opaque call: tail code, captured arguments, then either the end of the function (stop
+// facts; done = true) or the declared havoc of receiver fields.
+func (t *ftr) applyEffect(ef *feffect, ce *ast.CallExpr, x ast.Node, c fctx) (string, fctx, bool) {
+	{
+		{
+			{
 				ef.seen = true
 				if c.sealed {
-					return c.indent + t.fail(x, "second opaque call") + "\n"
+					return c.indent + t.fail(x, "second opaque call") + "\n", c, true
 				}
 				out := fmt.Sprintf("%slet tail : Nat := %d\n", c.indent, ef.code) + t.captureArg(ef, ce, c)
 				if t.f.stop {
-					return out + t.ret(nil, 0, c)
+					return out + t.ret(nil, 0, c), c, true
 				}
-				if len(ef.havoc) == 0 {
+				if len(ef.havoc) == 0 && ef.result == "" && !ef.cont {
 					c.sealed = true
 				}
 				for _, h := range ef.havoc {
@@ -1030,7 +1090,7 @@ func (t *ftr) stmts(list []ast.Stmt, c fctx, k func(c fctx) string) string {
 						src := t.param(h[1])
 						ty, ok := c.locals[h[0]]
 						if src == nil || !ok {
-							return c.indent + t.fail(x, "bad havoc declaration %v", h) + "\n"
+							return c.indent + t.fail(x, "bad havoc declaration %v", h) + "\n", c, true
 						}
 						src.used = true
 						if !src.typed {
@@ -1045,7 +1105,7 @@ func (t *ftr) stmts(list []ast.Stmt, c fctx, k func(c fctx) string) string {
 					}
 					field, src := t.param(h0), t.param(h[1])
 					if field == nil || !field.state || src == nil {
-						return c.indent + t.fail(x, "bad havoc declaration %v", h) + "\n"
+						return c.indent + t.fail(x, "bad havoc declaration %v", h) + "\n", c, true
 					}
 					src.used = true
 					if !src.typed {
@@ -1053,12 +1113,26 @@ func (t *ftr) stmts(list []ast.Stmt, c fctx, k func(c fctx) string) string {
 					}
 					out += fmt.Sprintf("%slet %s : %s := %s\n", c.indent, field.name, field.typ.lean(), src.name)
 				}
-				return out + next(c)
+				return out, c, false
 			}
 		}
-		return c.indent + t.fail(x, "statement %s", stmtString(t.p, x)) + "\n"
 	}
-	return c.indent + t.fail(s, "statement %T", s) + "\n"
+}
+
+// containsWord reports whether identifier w occurs in the Lean text s as a whole word.
+func containsWord(s, w string) bool {
+	for i := 0; i+len(w) <= len(s); i++ {
+		if s[i:i+len(w)] != w {
+			continue
+		}
+		isId := func(b byte) bool {
+			return b == '_' || b == '\'' || b >= '0' && b <= '9' || b >= 'a' && b <= 'z' || b >= 'A' && b <= 'Z'
+		}
+		if (i == 0 || !isId(s[i-1])) && (i+len(w) == len(s) || !isId(s[i+len(w)])) {
+			return true
+		}
+	}
+	return false
 }
 
 // findSubExpr returns the first sub-expression of n whose source text is src.
@@ -1320,7 +1394,7 @@ func allFacts() []*fact {
 	fs := baseFacts()
 	// AddPre / SubPre: the receiver state at the kernel call (or at the return / panic)
 	for _, f := range baseFacts() {
-		if f.lean != "Add" && f.lean != "Sub" && f.lean != "FMA" {
+		if f.lean != "Add" && f.lean != "Sub" && f.lean != "FMA" && f.lean != "Sqrt" {
 			continue
 		}
 		f.lean += "Pre"
@@ -1456,6 +1530,17 @@ func baseFacts() []*fact {
 				{src: "z.Mul(x, y)", code: 1},
 				{src: "z0.umul(x, y)", code: 3, havoc: [][2]string{{"z0.form", "<form after umul>"}, {"z0.acc", "<acc after umul>"}}},
 				{src: "z.Add(z0, u)", code: 2}}},
+		{lean: "Sqrt", fn: "Decimal.Sqrt", stateful: true,
+			doc: "b = value of x.MantExp(z); m* = the receiver fields MantExp leaves (it copies x); the exponent adjusted by the parity of b is in zExp, arg = b/2",
+			params: append(ps("xForm", "x.form", "xNeg", "x.neg", "xPrec", "x.prec", "bv", "<MantExp result>",
+				"mprec", "<prec after MantExp>", "mmode", "<mode after MantExp>", "macc", "<acc after MantExp>", "mform", "<form after MantExp>",
+				"mneg", "<neg after MantExp>", "mexp", "<exp after MantExp>"),
+				st("zPrec", "z.prec", "zMode", "z.mode", "zAcc", "z.acc", "zForm", "z.form", "zNeg", "z.neg", "zExp", "z.exp")...),
+			effects: []*feffect{
+				{src: "x.MantExp(z)", code: 1, result: "<MantExp result>", havoc: [][2]string{{"z.prec", "<prec after MantExp>"}, {"z.mode", "<mode after MantExp>"},
+					{"z.acc", "<acc after MantExp>"}, {"z.form", "<form after MantExp>"}, {"z.neg", "<neg after MantExp>"}, {"z.exp", "<exp after MantExp>"}}},
+				{src: "z.sqrtInverse(z)", code: 2, cont: true},
+				{src: "z.SetMantExp", code: 3, capture: 2}}},
 		{lean: "SetInt64", fn: "Decimal.SetInt64", stateful: true, params: ps("x", "x"),
 			doc:     "args = the (neg, |x| as uint64, exp) handed to setBits64",
 			effects: []*feffect{{src: "z.setBits64", code: 1, capAll: true}}},
@@ -1728,7 +1813,7 @@ func genFacts(p *pkgInfo) (string, []string) {
 			docp = append(docp, fmt.Sprintf("%s = %s", prm.name, prm.src))
 		}
 		for _, ef := range f.effects {
-			if !ef.seen {
+			if !ef.seen && !f.stop {
 				t.fail(fd, "opaque call %s does not occur", ef.src)
 			}
 		}
